@@ -320,6 +320,34 @@ pub fn run_case(prop: &str, sub: u64, histories: usize, scratch: &Path, acc: &mu
             report(acc, &case, &k0, &st, "path", &o, vs);
         }
     }
+    // a file larger than the 64 KiB buffers whose transcoding (latin-1 text full of non-ASCII
+    // bytes) is longer than the file itself, searched with the multi-line strategy proper
+    if prop == "C02" && rng.chance(1, 300) {
+        let mut d: Vec<u8> = vec![];
+        let target = 66_000 + rng.below(60_000);
+        while d.len() < target {
+            d.extend_from_slice(b"caf\xE9 foo \xE9\xE9\xE9\xE9\xE9\xE9\xE9\xE9\n");
+            d.extend_from_slice(&gen_line(&mut rng));
+            d.extend_from_slice(b"\nbar \xFC\xFC\n");
+        }
+        d.extend_from_slice(b"the end foo\nbar\n");
+        let c2 = Case {
+            data: d,
+            pattern: ML_PATTERNS[rng.below(ML_PATTERNS.len())].to_string(),
+            cfg: Cfg { term: Term::Lf, multi_line: true, stop_nm: false, passthru: false, invert: false, a: case.cfg.a.min(1), b: case.cfg.b.min(1), encoding: Some("latin1".into()), ..case.cfg.clone() },
+        };
+        if build_matcher(&c2).is_ok() {
+            let r2 = run(&c2, &k0, &Strategy::Slice, None, None);
+            let m2 = model(&c2);
+            for st in [Strategy::Path { mmap: false }, Strategy::Path { mmap: true }, Strategy::Reader(gen_history(&mut rng))] {
+                let o = run(&c2, &k0, &st, None, Some(scratch));
+                acc.evals += 1;
+                acc.faults.inc("large-transcoded-input-under-the-multi-line-strategy");
+                let vs = judge(&c2, &k0, &st, &r2, &m2, &o);
+                report(acc, &c2, &k0, &st, "large-transcoded", &o, vs);
+            }
+        }
+    }
     // special files: size 0 but content (procfs); a memory map is impossible
     // there and the searcher must fall back to reading
     if rng.chance(1, 300) {
@@ -328,7 +356,11 @@ pub fn run_case(prop: &str, sub: u64, histories: usize, scratch: &Path, acc: &mu
             if data.is_empty() || data.contains(&0) {
                 continue;
             }
-            let c2 = Case { data, pattern: ["o", "e", "^.", "[0-9]+"][rng.below(4)].to_string(), cfg: Cfg { term: Term::Lf, multi_line: false, stop_nm: false, ..case.cfg.clone() } };
+            // for C02 half of these searches really take the multi-line strategy (a pattern that
+            // can match a line terminator): the file is then read into one buffer up front
+            let ml = prop == "C02" && rng.chance(1, 2);
+            let pat = if ml { [r"\w+\s*\n", r"(?s)e.", r"o\n"][rng.below(3)] } else { ["o", "e", "^.", "[0-9]+"][rng.below(4)] };
+            let c2 = Case { data, pattern: pat.to_string(), cfg: Cfg { term: Term::Lf, multi_line: ml, stop_nm: false, encoding: None, ..case.cfg.clone() } };
             if build_matcher(&c2).is_err() {
                 continue;
             }
